@@ -4,6 +4,7 @@ import Driver.C15
 import Driver.Store
 import Driver.C19
 import Driver.Table
+import Driver.Lookup
 /-! Line-protocol driver. Usage: `drv <property>`; stdin: `op args… | impl-output`;
     stdout: one `MISMATCH`/`MONITOR` line per problem and a final `DONE` summary with coverage tags. -/
 open Drv
@@ -83,6 +84,7 @@ def main (args : List String) : IO UInt32 := do
   | ["C19"] => finish (← loopStateless (Drv.C19.step true) h {})
   | ["C19", "ideal"] => finish (← loopStateless (Drv.C19.step false) h {})
   | ["table", prop] => finish (← loopStateful (Drv.Table.step prop) h {} {})
+  | ["lookup"] => finish (← loopStateful Drv.Lookup.step h {} {})
   | ["inrange"] => finish (← loopStateless Drv.Store.inRangeStep h {})
   | ["store", prop] => finish (← loopStateful (Drv.Store.step prop) h {} {})
   | _ => IO.eprintln "usage: drv <property>"; return 2
